@@ -520,6 +520,71 @@ fn two_program_directories(acc: &mut Acc) {
     let _ = std::fs::remove_dir_all(&base);
 }
 
+/// File-shape ladder: a healthy library file in which a multi-byte character (2, 3 or 4 bytes; in a
+/// comment or inside a string of the body) starts at every byte offset 1..=700 must load and give its
+/// value (a reader working in blocks shows at its block boundary); library names whose file paths
+/// coincide (`(a b)` / `(a/b)`, `(foo 1)` / `(foo |1|)`) are different libraries.
+fn file_shape_ladder(acc: &mut Acc, top: usize) {
+    let base = std::path::PathBuf::from(format!("/verif/target/scratch/c14-shapes-{}", std::process::id()));
+    let _ = std::fs::remove_dir_all(&base);
+    std::fs::create_dir_all(&base).unwrap();
+    let eval_in = |forms: &[String]| -> Vec<String> {
+        let mut it = Interp::must_bare();
+        it.it.program_directory = Some(base.clone());
+        forms.iter().map(|f| format!("{}", it.eval(f))).collect()
+    };
+    for k in 1..=top {
+        let ch = ["λ", "€", "😀"][k % 3];
+        let name = format!("off{}", k);
+        let text = if k % 2 == 1 || k < 60 {
+            // the character ends a leading comment line
+            format!(";{}{}\n(define-library ({}) (export v) (begin (define v {})))\n", "c".repeat(k - 1), ch, name, k)
+        } else {
+            // the character sits inside a string literal of the body
+            let head = format!("(define-library ({}) (export v s) (begin (define v {}) (define s \"", name, k);
+            if head.len() > k {
+                continue;
+            }
+            format!("{}{}{} tail\")))\n", head, "s".repeat(k - head.len()), ch)
+        };
+        debug_assert!(text.as_bytes().len() > k);
+        std::fs::write(base.join(format!("{}.sld", name)), &text).unwrap();
+        let got = eval_in(&[format!("(import ({}))", name), "v".to_string()]);
+        acc.evals += 1;
+        acc.transitions += 1;
+        acc.count("file-shape ladder: multi-byte character at byte offset k", 1);
+        if got[1] != k.to_string() {
+            acc.mismatch(Mismatch { idx: u64::MAX - 200, case: format!("[file-shape ladder] a healthy library file with {:?} at byte offset {}", ch, k), expected: format!(": the import succeeds and v = {}", k), observed: got.join(" ; "), payload: json!({"kind": "file-shape", "offset": k}) }, None);
+        }
+    }
+    // names whose paths coincide
+    std::fs::create_dir_all(base.join("a")).unwrap();
+    std::fs::create_dir_all(base.join("x")).unwrap();
+    std::fs::create_dir_all(base.join("foo")).unwrap();
+    std::fs::write(base.join("a/b.sld"), "(define-library (a b) (export ab) (begin (define ab 'a-b)))\n").unwrap();
+    std::fs::write(base.join("x/y.sld"), "(define-library (x/y) (import (x y)) (export xy2) (begin (define xy2 xy)))\n(define-library (x y) (export xy) (begin (define xy 'x-y)))\n").unwrap();
+    std::fs::write(base.join("foo/1.sld"), "(define-library (foo |1|) (export f1) (begin (define f1 'foo-bar-1)))\n").unwrap();
+    let cases: Vec<(Vec<&str>, &str, fn(&[String]) -> bool)> = vec![
+        (vec!["(import (a b))", "ab"], "a-b", |g| g[1] == "a-b"),
+        (vec!["(import (a/b))", "ab"], "an error for the import (the file defines (a b), not (a/b)) and ab unbound", |g| g[0].starts_with("error") && g[1].starts_with("error")),
+        (vec!["(import (x y))", "xy"], "x-y", |g| g[1] == "x-y"),
+        (vec!["(import (x/y))", "xy2"], "x-y", |g| g[1] == "x-y"),
+        (vec!["(import (foo 1))", "f1"], "an error for the import (the file defines (foo |1|), not (foo 1)) and f1 unbound", |g| g[0].starts_with("error") && g[1].starts_with("error")),
+        (vec!["(import (foo |1|))", "f1"], "foo-bar-1", |g| g[1] == "foo-bar-1"),
+    ];
+    for (forms, want, ok) in cases {
+        let fs: Vec<String> = forms.iter().map(|s| s.to_string()).collect();
+        let got = eval_in(&fs);
+        acc.evals += 1;
+        acc.transitions += 1;
+        acc.count("library names whose file paths coincide", 1);
+        if !ok(&got) {
+            acc.mismatch(Mismatch { idx: u64::MAX - 201, case: format!("[names with coinciding paths] {}", forms.join(" ")), expected: format!(": {}", want), observed: got.join(" ; "), payload: json!({"kind": "file-shape", "offset": 0}) }, None);
+        }
+    }
+    let _ = std::fs::remove_dir_all(&base);
+}
+
 pub fn run(ctx: &Ctx) -> i32 {
     let sp = Space::new(ctx.thorough());
     let total = sp.total();
@@ -553,6 +618,7 @@ pub fn run(ctx: &Ctx) -> i32 {
         }
     }
     two_program_directories(&mut acc);
+    file_shape_ladder(&mut acc, 700);
     // a configuration that killed its worker: importing did not terminate normally
     for d in &res.deaths {
         covered[d.index as usize] = covered[d.index as usize].saturating_add(1);
@@ -580,7 +646,7 @@ pub fn run(ctx: &Ctx) -> i32 {
             exhaustive: true,
             rule: format!("every directed graph (self-loops allowed) on 1 and 2 libraries with every assignment of 9 node healths (healthy, missing, faulting body, wrong name in file, syntactically broken, not UTF-8 in the first line, not UTF-8 in a comment after the complete form, path is a directory, healthy behind another library definition in the same source); library files span several lines; every graph on 3 libraries (512) with {}; the library-to-library edges written as plain names and, for all configurations on <= 2 libraries and the all-healthy graphs on 3, as only / prefix / rename / except / mixed / empty-only import sets; for each configuration every history of import attempts on one interpreter (length 3 on <= 2 libraries{}; maximal histories cover their prefixes), with the libraries as files under the program directory (decoy libraries with other values in the working directory) and as registered sources; states = configurations, transitions = import attempts; plus every sequence of <= 3 program files from three directories evaluated on one interpreter (each imports a library that lives next to it, decoys everywhere else), and each of these programs run through the built binary from another working directory", if ctx.thorough() { "every health assignment (729)" } else { "at most one unhealthy node (25 assignments)" }, if ctx.thorough() { ", length 3 on 3 libraries with at most one unhealthy node, otherwise 2" } else { ", length 2 on 3 libraries" }),
             bounds: json!({"configurations": total, "worker_deaths": res.deaths.len()}),
-            assumptions: vec!["reference loader: cyclic-import error iff a cycle is reachable through readable libraries, the underlying error kind iff an unhealthy library is reachable, either when both, success otherwise; shared dependencies are not cycles".into(), "hook H2 (verif_in_progress) gives the in-progress set".into()],
+            assumptions: vec!["reference loader: cyclic-import error iff a cycle is reachable through readable libraries, the underlying error kind iff an unhealthy library is reachable, either when both, success otherwise; shared dependencies are not cycles; file-shape ladder: a healthy library file with a 2/3/4-byte character starting at every byte offset 1..700 (in a comment / inside a string of the body); library names whose file paths coincide ((a b) vs (a/b), (foo 1) vs (foo |1|)) stay different libraries".into(), "hook H2 (verif_in_progress) gives the in-progress set".into()],
             wall_s: ctx.elapsed(),
             extra: json!({}),
         },
@@ -598,6 +664,14 @@ pub fn run(ctx: &Ctx) -> i32 {
 }
 
 pub fn replay(p: &serde_json::Value) -> bool {
+    if p["kind"] == "file-shape" {
+        let mut acc = Acc::new();
+        file_shape_ladder(&mut acc, 700);
+        for v in &acc.violations {
+            println!("{}\n  {}", v.case, v.observed);
+        }
+        return acc.n_violations > 0;
+    }
     if p.get("programs").is_some() {
         let mut acc = Acc::new();
         two_program_directories(&mut acc);
